@@ -108,13 +108,24 @@ EntRes(e, t2tier) ==
             IF e.v.f = "none" THEN Res("ok", p.name, p.pt.def)
             ELSE LET r == IF t2tier THEN Den2(p.pt, e.v) ELSE DenX(p.pt, e.v) IN Res(r.ret, p.name, r.den)
 (* a name alone in an argument list: the value is a character pointer to nothing *)
+(* a name alone in an argument list asks for the documented default.  The code hands the property a character    *)
+(* pointer to nothing: string properties become empty (their default), a colour takes what an empty colour text  *)
+(* is on the direct route (opaque black) or its default, everything else is reset or refused -- never a value    *)
+(* nobody handed in for that property                                                                             *)
 ArgRes(e, t2tier) ==
   IF e.v.f # "none" THEN EntRes(e, t2tier)
   ELSE LET i == SetResolve(kind, e.name) IN
        IF i = 0 THEN Res("refused", "", <<>>)
-       ELSE LET p == Props(kind)[i]
-                r == IF t2tier THEN Den2(p.pt, TypedS(<<>>)) ELSE DenX(p.pt, TypedS(<<>>)) IN
-            Res(r.ret, p.name, r.den)
+       ELSE LET p == Props(kind)[i] IN
+            IF t2tier THEN LET r == Den2(p.pt, TypedS(<<>>)) IN Res(r.ret, p.name, r.den)
+            ELSE IF p.pt.t = "str" THEN Res("ok", p.name, <<>>)
+            ELSE Res("either", p.name, p.pt.def)
+ArgRes1(e) ==        \* statement tier, as a list (a colour has two permitted outcomes)
+  LET r == ArgRes(e, FALSE) IN
+  IF e.v.f = "none" /\ r.tgt # "" /\ PropByName(kind, r.tgt).pt.t = "col" THEN <<r, Res("either", r.tgt, BLACK)>> ELSE <<r>>
+RECURSIVE ArgRsFrom(_, _)
+ArgRsFrom(es, i) == IF i > Len(es) THEN <<>> ELSE ArgRes1(es[i]) \o ArgRsFrom(es, i + 1)
+ArgRs(es) == ArgRsFrom(es, 1)
 
 (* object state as a value *)
 St(o) == [a |-> t1[o], r |-> t2[o], id |-> nid]
@@ -254,14 +265,14 @@ ArgsOffer(src, e) == e.x = "" /\ (src = "conv" => e.v.f \notin {"num", "num2", "
 Args(o, src, ents) ==
   LET es  == [i \in 1..Len(ents) |-> ArgEnt(src, ents[i])]
       run == ArgsRun(St(o), es, 1)
-      rs  == Results(es, LAMBDA e : ArgRes(e, FALSE)) IN
+      rs  == ArgRs(es) IN
   /\ \A i \in 1..Len(ents) : ArgsOffer(src, ents[i]) /\ Settled(ArgRes(es[i], TRUE))
   /\ Commit(o, run.s)
   /\ DoorAnswer("args", [o |-> o - 1, src |-> src, ents |-> EntArgs(ents)], o, "any", Perm(t1[o], rs), [napplied |-> run.n])
 
 (* mpt_object_set_nodes: values are texts (parsed like mpt_object_set_string) *)
 (* or typed values held by the node                                            *)
-NodesOffer(e) == e.v.f \notin {"s", "sr", "num2"} /\ (e.v.f \in {"txt", "rle"} => e.v.c # <<>>)
+NodesOffer(e) == e.v.f \notin {"s", "sr"} /\ (e.v.f \in {"txt", "rle"} => e.v.c # <<>>)
 Nodes(o, m, lg, ents) ==
   LET run == NodesRun(St(o), ents, m, 1, 0)
       idx == {i \in 1..Len(ents) : Processed(ents[i], m, i)}
@@ -345,7 +356,7 @@ NSetRs(ents) == [i \in 1..Len(ents) |-> LET r == EntRes(NodeEnt(ents[i]), FALSE)
                                          IF NSetStops(ents[i]) /\ r.ret = "ok" THEN Res("either", r.tgt, r.den) ELSE r]
 NSet(o, ents) ==
   LET run == NSetRun(St(o), ents, 1) IN
-  /\ \A i \in 1..Len(ents) : ents[i].x \in {"", "U"} /\ ents[i].v.f \in {"num", "txt", "rle", "none"}
+  /\ \A i \in 1..Len(ents) : ents[i].x \in {"", "U"} /\ ents[i].v.f \in {"num", "num2", "txt", "rle", "none"}
                               /\ (ents[i].v.f \in {"txt", "rle"} => ents[i].v.c # <<>>)
                               /\ (NSetStops(ents[i]) \/ Settled(EntRes(NodeEnt(ents[i]), TRUE)))
   /\ Commit(o, run.s)
@@ -392,6 +403,26 @@ Triples(S, OkP(_)) ==
            e2 == CHOOSE e \in ok : e.name # e1.name IN
        {<<e1, Ent(N_bogus, Txt(W_abc), ""), e2>>, <<e1, Ent(e2.name, NoVal, ""), e2>>,
         <<e2, Ent(e1.name, RefusedVal(PropOfName(kind, e1.name).pt), ""), e1>>}
+(* every property followed by another one: a setter that answers a positive code (a point takes one or two       *)
+(* coordinates) must not end the list; and the whole table in one list, forwards and backwards                   *)
+TextAcc(pt) == <<Accepted(pt)[1]>> \o (IF pt.t = "pt" THEN <<Num2(2, 1)>> ELSE <<>>)
+AccEnt(i) == Ent(Props(kind)[i].nc, Accepted(Props(kind)[i].pt)[1], "")
+NextOf(i) == (i % NProps(kind)) + 1
+Chains == UNION {{<<Ent(Props(kind)[i].nc, TextAcc(Props(kind)[i].pt)[k], ""), AccEnt(NextOf(i))>> :
+                     k \in 1..Len(TextAcc(Props(kind)[i].pt))} : i \in 1..NProps(kind)}
+          \cup {<<Ent(Props(kind)[i].nc, TextAcc(Props(kind)[i].pt)[Len(TextAcc(Props(kind)[i].pt))], ""), AccEnt(NextOf(i)), AccEnt(NextOf(NextOf(i)))>> :
+                  i \in {j \in 1..NProps(kind) : Props(kind)[j].pt.t = "pt"}}
+          \cup {[i \in 1..NProps(kind) |-> AccEnt(i)], [i \in 1..NProps(kind) |-> AccEnt(NProps(kind) + 1 - i)]}
+(* argument lists that mix assignments and bare names in every order, on the same and on different properties *)
+ArgFocus == Focus \cup {i \in 1..NProps(kind) : Props(kind)[i].pt.t = "str"}
+ArgAssign == {Ent(Props(kind)[i].nc, v, "") : i \in ArgFocus, v \in {Rle(<<104, 1, 105, 1>>), Txt(W_abc)}}
+ArgBare == {Ent(Props(kind)[i].nc, NoVal, "") : i \in ArgFocus}
+ArgRle == {x \in ArgAssign : x.v.f = "rle"}
+ArgMixed == {<<a, b>> : a \in ArgAssign, b \in ArgBare} \cup {<<b, a>> : a \in ArgAssign, b \in ArgBare}
+            \cup {<<b, c>> : b \in ArgBare, c \in ArgBare}
+            \cup {<<a, b, Ent(a.name, NoVal, "")>> : a \in ArgRle, b \in ArgBare}
+            \cup {<<b, a, b>> : a \in ArgRle, b \in ArgBare}
+            \cup {<<a, Ent(b.name, Txt(W_abc), ""), b>> : a \in ArgRle, b \in ArgBare}
 ArgTriples == Triples(TextEnts, LAMBDA e : ArgRes(ArgEnt("str", e), TRUE).ret = "ok")
 NodeTriples == Triples(PoolCore \cup PoolOdd, LAMBDA e : EntRes(e, TRUE).ret = "ok")
 Presets ==           \* second object prepared through the direct route
@@ -411,6 +442,8 @@ DoorOp ==
   \/ \E l \in Lists(TextEnts, IF Lvl >= 2 THEN 2 ELSE 1) \cup ArgTriples \cup {<<>>} :
         Args(1, "str", l) \/ (Lvl >= 2 /\ Args(1, "va", l))
   \/ \E l \in Short(TextEnts) \cup ArgTriples : Args(1, "va", l)
+  \/ \E l \in ArgMixed : Args(1, "str", l) \/ (Len(l) = 2 /\ (Lvl >= 2 \/ l[1] \in ArgRle \/ l[2] \in ArgRle) /\ Args(1, "va", l))
+  \/ \E l \in Chains : Nodes(1, 49, 1, l) \/ Nodes(1, 51, 0, l)
   \/ \E l \in Lists(ConvEnts, 1) \cup {<<e, f>> : e \in {x \in ConvEnts : Lvl >= 2 \/ x.v.f \in {"i", "s"}}, f \in {x \in ConvEnts : x.v.f = "d"}} : Args(1, "conv", l)
   \/ \E m \in Masks : \E l \in Lists(PoolCore \cup PoolOdd, 1) \cup Lists(PoolNodes, IF Lvl >= 2 THEN 2 ELSE 1) \cup NodeTriples
                              \cup {<<e, f>> : e \in PoolNodes, f \in {x \in PoolCore : x.name = Props(kind)[1].nc}} :
@@ -434,7 +467,8 @@ CxxOp ==
         \E v \in ASetVals(Props(kind)[IF Resolve1(kind, nm) = 0 THEN 1 ELSE Resolve1(kind, nm)].pt) : ASet(1, nm, v)
   \/ AList(1, 0) \/ AList(1, 1) \/ AList(2, 0)
   \/ \E l \in Lists(NSetPool, IF Lvl >= 2 THEN 2 ELSE 1) \cup NodeTriples \cup {<<>>}
-              \cup {<<e, f>> : e \in {x \in NSetPool : x.name = Props(kind)[1].nc \/ x.x = "U"}, f \in {x \in NSetPool : x.name = Props(kind)[2].nc}} : NSet(1, l)
+              \cup {<<e, f>> : e \in {x \in NSetPool : x.name = Props(kind)[1].nc \/ x.x = "U"}, f \in {x \in NSetPool : x.name = Props(kind)[2].nc}}
+              \cup Chains : NSet(1, l)
 
 Next21 ==
   /\ ops < MaxOps /\ ops' = ops + 1
